@@ -237,6 +237,15 @@ fn round_up_to_half(x: f32) -> f32 {
     }
 }
 
+/// Verification hooks: thin public wrappers that let proof harnesses reach
+/// the private helpers of this module. Compiled only under `cargo kani`.
+#[cfg(kani)]
+pub mod verif_hooks {
+    pub fn round_up_to_half(x: f32) -> f32 {
+        super::round_up_to_half(x)
+    }
+}
+
 #[cfg(test)]
 mod tests {
     use alloc::string::{String, ToString};
